@@ -20,5 +20,72 @@ fn main() {
             }
         }
     }
+    if let Some(multi) = std::env::var_os("VERIF_SIMBP_MULTI") {
+        // several phase invocations in ONE process through the public (doc-hidden) entry points
+        // `libcnb_runtime_detect` / `libcnb_runtime_build`: state cached across invocations shows
+        run_multi(std::path::Path::new(&multi));
+        return;
+    }
     libcnb::libcnb_runtime(&SimBp);
+}
+
+#[derive(serde::Deserialize)]
+struct MultiInvocation {
+    build: bool,
+    cwd: std::path::PathBuf,
+    env: Vec<(String, String)>,
+    args: Vec<String>,
+    script: script::Script,
+}
+
+fn run_multi(file: &std::path::Path) {
+    use libcnb::Buildpack;
+    let text = std::fs::read_to_string(file).expect("multi file");
+    let list: Vec<MultiInvocation> = serde_json::from_str(&text).expect("multi file parses");
+    let mut codes: Vec<i32> = Vec::new();
+    for inv in list {
+        for k in [
+            "CNB_BUILDPACK_DIR",
+            "CNB_TARGET_OS",
+            "CNB_TARGET_ARCH",
+            "CNB_TARGET_ARCH_VARIANT",
+            "CNB_TARGET_DISTRO_NAME",
+            "CNB_TARGET_DISTRO_VERSION",
+        ] {
+            // SAFETY: single-threaded process.
+            unsafe { std::env::remove_var(k) };
+        }
+        for (k, v) in &inv.env {
+            // SAFETY: single-threaded process.
+            unsafe { std::env::set_var(k, v) };
+        }
+        std::env::set_current_dir(&inv.cwd).expect("chdir");
+        bp::install(inv.script);
+        let result = if inv.build {
+            libcnb::libcnb_runtime_build(
+                &SimBp,
+                libcnb::BuildArgs {
+                    layers_dir_path: inv.args[0].clone().into(),
+                    platform_dir_path: inv.args[1].clone().into(),
+                    buildpack_plan_path: inv.args[2].clone().into(),
+                },
+            )
+        } else {
+            libcnb::libcnb_runtime_detect(
+                &SimBp,
+                libcnb::DetectArgs {
+                    platform_dir_path: inv.args[0].clone().into(),
+                    build_plan_path: inv.args[1].clone().into(),
+                },
+            )
+        };
+        codes.push(match result {
+            Ok(c) => c,
+            Err(e) => {
+                SimBp.on_error(e);
+                1
+            }
+        });
+    }
+    println!("codes={codes:?}");
 }
